@@ -317,3 +317,50 @@ func VerifC03_UniqueName()         { verifC03Step(vStoreCfg{nickNullable: true},
 func VerifC03_NullableUniqueNick() { verifC03Step(vStoreCfg{nickNullable: true}, vFocusNick) }
 func VerifC03_NonNullUniqueNick()  { verifC03Step(vStoreCfg{nickNullable: false}, vFocusNick) }
 func VerifC03_SetIndexRoles()      { verifC03Step(vStoreCfg{nickNullable: true}, vFocusRoles) }
+
+// VerifC03_IndexesFollowChildEntities: the parent's indexes are maintained by
+// the same constraints when the entity is a child-store entity, for which the
+// store runs the constraint chain of both stores: a manager (child data) and a
+// plain emp hold arbitrary role sets; the manager is deleted or its roles are
+// rewritten, through either store; the set and unique indexes equal the spec.
+func VerifC03_IndexesFollowChildEntities() {
+	cfg := vStoreCfg{nickNullable: true}
+	env := verifNewEnv(cfg)
+	defer env.close()
+	mgr := verifNewMgrStore(env.emp, false)
+	sp := &vSpec{}
+	for i := 0; i < 2; i++ {
+		sp.slots[i] = vSlot{present: true, name: "N" + vIds[i], roles: [2]bool{verifrt.Bool("r1"), verifrt.Bool("r2")}}
+	}
+	err := env.update(func(ctx MutateContext) error {
+		if err := mgr.Create(ctx, &vMgr{vEmp: *sp.slots[0].entity(vIds[0]), Lead: true}); err != nil {
+			return err
+		}
+		return env.emp.Create(ctx, sp.slots[1].entity(vIds[1]))
+	})
+	verifrt.Assert(err == nil, "C03 child-entity population setup succeeds")
+	env.checkStateC03(sp, "C03 child entity after build")
+	next := *sp
+	op := verifrt.Choose("op", 4)
+	switch op {
+	case 0, 1:
+		next.slots[0] = vSlot{}
+		err = env.update(func(ctx MutateContext) error {
+			if op == 0 {
+				return env.emp.DeleteById(ctx, vIds[0])
+			}
+			return mgr.DeleteById(ctx, vIds[0])
+		})
+	case 2, 3:
+		next.slots[0].roles = [2]bool{verifrt.Bool("new.r1"), verifrt.Bool("new.r2")}
+		ent := next.slots[0].entity(vIds[0])
+		err = env.update(func(ctx MutateContext) error {
+			if op == 2 {
+				return env.emp.Update(ctx, ent, nil)
+			}
+			return mgr.Update(ctx, &vMgr{vEmp: *ent, Lead: true}, nil)
+		})
+	}
+	verifrt.Assert(err == nil, "C03 deleting / updating a child entity succeeds")
+	env.checkStateC03(&next, "C03 child entity after the operation")
+}
